@@ -115,7 +115,7 @@ FLOORS = {
                            "overlay_before_base_used": 200, "overlay_base_rechecks": 700,
                            "overlay_linestmt_checks": 100,
                            "cases_exotic": 10000, "cases_exotic_exhaustive": 12000,
-                           "cases_exotic_random": 5000,
+                           "cases_exotic_random": 3500,
                            "exotic_removed_by_lstrip:block": 1000,
                            "exotic_removed_by_lstrip:comment": 500,
                            "exotic_removed_by_lstrip:raw_open": 200,
@@ -140,7 +140,25 @@ FLOORS = {
                               "cases_custom_delims": 250000, "cases_linestmt": 60000,
                               "overlay_lex_checks": 15000, "overlay_after_base_used": 5000,
                               "overlay_before_base_used": 2000, "overlay_base_rechecks": 7000,
-                              "overlay_linestmt_checks": 1000}},
+                              "overlay_linestmt_checks": 1000,
+                              "cases_exotic": 100000, "cases_exotic_exhaustive": 12000,
+                              "cases_exotic_random": 100000,
+                              "exotic_removed_by_lstrip:block": 12000,
+                              "exotic_removed_by_lstrip:comment": 4500,
+                              "exotic_removed_by_lstrip:raw_open": 3500,
+                              "exotic_removed_by_lstrip:raw_close": 1500,
+                              "exotic_removed_by_lstrip_mixed_with_blanks": 7000,
+                              "exotic_kept_by_plus": 7500,
+                              "exotic_removed_by_minus_left": 40000,
+                              "exotic_removed_by_minus_right": 40000,
+                              "exotic_between_tag_and_newline": 38000,
+                              "exotic_after_trimmed_newline": 12000,
+                              "exotic_in_raw_body": 30000, "exotic_kept_in_data": 250000,
+                              "exotic_inner_lexed:block": 45000,
+                              "exotic_inner_lexed:var": 24000,
+                              "exotic_inner_lexed:raw_open": 11000,
+                              "exotic_inner_lexed:raw_close": 11000,
+                              "zero_width_space_runs": 19000}},
 }
 
 SETTINGS = [(False, False), (False, True), (True, False), (True, True)]
